@@ -13,7 +13,8 @@ RULE = ('(tap) conversations between two normal peers (both directions, random p
         'real layer in listen mode configured with the receiver address but different blocksize/stmin/padding and its own batching; '
         '(garbage) the same random / malformed frame sequence fed to a normal receiver and to a listener. Oracle: the listener hands '
         'nothing to txfn, and its recv() results equal the normal receiver\'s. All runs replayed on the extracted model. '
-        'non-trivial = distinct cases')
+        'non-trivial = distinct cases'
+        ' (listener_sends) a listener whose user also calls send() (Single Frame or a multi-frame message with its grants) during a tapped segmented transfer: it transmits what its user sends, never a Flow Control; the tapped payload is delivered.')
 ASSUME = ['no N_Cr deadline is missed at either observer (ticks stay below the timeouts)']
 
 
